@@ -325,11 +325,46 @@ def gen_random(ctx: Ctx, k):
     return {"mode": mode, "events": evs}
 
 
+TORCH_TIDS = [7, 8, "stream 11", "stream 12"]
+
+
+def gen_e2e_torch(ctx: Ctx):
+    """a torch-profiler style input (TORCH dialect): device slices on numeric AND on string tids ("stream 11"),
+    lanes reach the export under their own names, so the lanes-not-merged clause is decided end to end too"""
+    rng = ctx.rng
+    mode = "drop" if rng.random() < 0.25 else "tid"
+    evs, uid = [], 0
+    for tid in rng.sample(TORCH_TIDS, rng.randint(1, 3)):
+        base = rng.randint(0, 3)
+        for i in range(rng.randint(1, 4)):                 # staircase
+            evs.append(_ev(uid, True, 0, tid, base + i, 12))
+            uid += 1
+        for _ in range(rng.randint(0, 6)):
+            evs.append(_ev(uid, True, 0, tid, rng.randint(0, 30), rng.choice([1, 1, 2, 3, 5, 12])))
+            uid += 1
+    rng.shuffle(evs)
+    return {"mode": mode, "e2e": True, "torch": True, "events": evs}
+
+
+def torch_file(case):
+    ev = [{"ph": "M", "name": "process_name", "pid": 0, "tid": 0, "ts": 0, "args": {"name": "AIU 0"}}]
+    for e in case["events"]:
+        uid, _isx, pid, tid, ts, dur = e
+        # (the name refinement behind the overlap stages strips digits from torch kernel names: letters only)
+        ev.append({"ph": "X", "cat": "kernel", "name": "e_" + "".join(chr(97 + int(c)) for c in str(uid)), "pid": pid, "tid": tid, "ts": 1000.0 + float(Fraction(ts)),
+                   "dur": float(Fraction(dur)),
+                   "args": {"uid": uid, "External id": uid + 1, "correlation": 100 + uid, "device": 0, "stream": 7}})
+    return {"schemaVersion": 1, "deviceProperties": [{"id": 0, "name": "AIU"}], "distributedInfo": {"rank": 0},
+            "traceEvents": ev}
+
+
 def gen_e2e(ctx: Ctx):
     """small populations for the whole CLI (`Acelyzer.run`, final JSON): plain X events, integer times,
     nesting depth within the budget.  The CLI merges host events of a pid into one tid before the
     overlap stage, so only the laminar and the nothing-lost clauses are decided end to end."""
     rng = ctx.rng
+    if rng.random() < 0.3:
+        return gen_e2e_torch(ctx)
     mode = "drop" if rng.random() < 0.3 else "tid"
     evs, uid = [], 0
     for pid in range(rng.randint(1, 2)):
@@ -357,7 +392,19 @@ def oracle_e2e(case, res):
             if not lam(_iv(a), _iv(b), TOL):
                 return ("overlap-laminar", f"final JSON lane {L}: uid {a['args']['uid']} {_iv(a)} and uid "
                                            f"{b['args']['uid']} {_iv(b)} partially overlap"), "e2e_ok"
-    ins = {e[0]: mk_event(e) for e in case["events"]}
+    if case.get("torch"):
+        ins = {x["args"]["uid"]: x for x in torch_file(case)["traceEvents"] if x["ph"] == "X"}
+        # lanes are never merged: slices of different input lanes are on different lanes of the export
+        src = {}
+        for e in out:
+            o = ins.get(e["args"]["uid"])
+            if o is not None:
+                src.setdefault((e["pid"], e["tid"]), set()).add((o["pid"], o["tid"]))
+        for L, froms in src.items():
+            if len(froms) > 1:
+                return ("overlap-merge", f"final JSON lane {L} holds slices of the input lanes {sorted(map(str, froms))}"), "e2e_ok"
+    else:
+        ins = {e[0]: mk_event(e) for e in case["events"]}
     cnt = {}
     for e in out:
         u = e["args"]["uid"]
@@ -373,8 +420,19 @@ def oracle_e2e(case, res):
     return None, "e2e_ok"
 
 
+# switches the statement does not depend on: they register (or leave out) other stages around the overlap
+# sub-pipeline.  Chosen from the case so that a case replays identically.
+E2E_EXTRA = [[], ["--keep_prep"], ["--drop_globals"], ["-t"], ["--disable_tb"], ["--flow"], ["-k"], ["-M"],
+             ["-C", "power_ts4", "prep_queue"], ["--drop_globals", "-t", "--flow"]]
+
+
 def run_e2e(case):
-    return stage.e2e([] if case["mode"] == "tid" else ["-O", "drop"], {"in.json": [mk_event(e) for e in case["events"]]})
+    extra = E2E_EXTRA[len(case["events"]) % len(E2E_EXTRA)]
+    if case.get("torch"):
+        extra = [x for x in extra if x not in ("--flow", "-M")]
+        return stage.e2e(([] if case["mode"] == "tid" else ["-O", "drop"]) + extra, {"in.json": torch_file(case)})
+    return stage.e2e(([] if case["mode"] == "tid" else ["-O", "drop"]) + extra,
+                     {"in.json": [mk_event(e) for e in case["events"]]})
 
 
 def gen_cases(ctx: Ctx):
